@@ -117,18 +117,28 @@ def gen_io_seq(rng, W, maxlen):
     for s, nd in NAMES:
         if nd: fs.append(0); continue
         c = rng.random()
-        if c < 0.25: fs.append(1)
-        elif c < 0.60 and s < 4:
+        if c < 0.2: fs.append(1)
+        elif c < 0.72 and s < 4:
             fs.append(2 + W.written[(s, rng.choice([1, 1, 0, 2, 3] if s != 2 else [1]))])
-        elif c < 0.80: fs.append(2 + rng.choice(list(W.special.values())))
+        elif c < 0.86: fs.append(2 + rng.choice(list(W.special.values())))
         else: fs.append(2 + rng.randrange(len(W.bytes)))
     n = rng.randint(1, maxlen); ops = []
     hot = [rng.randrange(nn) for _ in range(3)]
+    kind_of = {}
+    for (g, k), c in W.written.items(): kind_of.setdefault(c, k)
+    files = [i for i, e in enumerate(fs) if e >= 2]
     for _ in range(n):
         o = rng.choice([0, 0, 0, 0, 0, 0, 1, 1, 1, 1, 2, 2, 3, 3, 4, 5, 5])
         a = rng.choice([0, 1, 2, 3, 3, 4, 5]) if o in (2, 3) else 0
         k = rng.choice([0, 1, 1, 2, 3])
-        nm = rng.choice(hot) if rng.random() < 0.6 else rng.randrange(nn)
+        nm = rng.choice(hot) if rng.random() < 0.5 else rng.randrange(nn)
+        if o in (0, 2, 5) and files and rng.random() < 0.6:
+            nm = rng.choice(files)                                   # aim at an existing file, read as what was written
+            if fs[nm] - 2 in kind_of and rng.random() < 0.8: k = kind_of[fs[nm] - 2]
+            if o == 2 and rng.random() < 0.6: a = 4
+        if o in (1, 3, 4) and rng.random() < 0.5:
+            nm = rng.choice([i for i, (s_, nd) in enumerate(NAMES) if not nd])
+            if o == 3 and rng.random() < 0.5: a = rng.choice([0, 1, 3, 4])
         ops.append((o, a, k, nm))
     return fs, ops
 
@@ -235,7 +245,7 @@ def check_io(ck, hb, quick, replay):
                 l = l.strip()
                 if l.startswith("io "):
                     j = json.loads(l[3:]); seqs.append((j["fs"], [tuple(o) for o in j["ops"]]))
-        nseq = 160 if quick else 1500
+        nseq = 260 if quick else 2000
         seqs += [gen_io_seq(rng, W, 8 if quick else 20) for _ in range(nseq)]
     res = run_io_sequences(ck, hb, W, seqs, "ioseq")
     nviol = 0
